@@ -14,6 +14,10 @@ checks = {
     text="For each generated MPCL program (documented subset: wrapping intN/uintN arithmetic, comparisons, boolean logic, constant shifts, casts, if/else with early return, unrolled loops, arrays, structs, multi-result calls, nested branch merges) the real compiler's circuit is proved equal to the reference semantics for ALL inputs by z3; the program quantifier is a seeded, stated family. Every shipped @Test vector (except the 5 sha512 programs whose circuit files are empty in this sandbox) is checked with the repository's own oracle.",
     ref="DESIGN.md C03", engine="circtv", script="python3-vt",
     note="Trusted base: z3; the gate-to-term translation; the generator's reference semantics (only documented forms; forms found to be undocumented were removed from the grammar, see DESIGN.md). Programs whose miter does not close in the time budget are excluded and listed (reduced bound)."),
+ "C09": dict(cat="translation_validation", tech="SMT miter (z3) between the circuits the real compiler emits under different options/targets, all inputs",
+    text="Every program of a seeded generated corpus plus the shipped sized testsuite/lang and testsuite/math programs is compiled by the real compiler under {prune off/on} x {multiplier threshold default/8/64} x {Yao, GMW}; z3 proves each variant circuit equal to the baseline for ALL inputs (cross-algorithm pairs only where multipliers/dividers are <= 8/10 bits; for shipped programs only same-algorithm prune pairs). Counterexamples are replayed through the real Compute of both variants.",
+    ref="DESIGN.md C09", engine="circtv", script="python3-vt",
+    note="Trusted base: z3 and the gate-to-term translation. Pairs whose miter does not close within the budget are excluded and listed (reduced bound)."),
  "C07": dict(cat="translation_validation", tech="SMT miter (z3) of the real builders' gate lists against bit-vector reference semantics, all operand values",
     text="Each real builder invocation (operator x operand widths x result width x target x algorithm) is compiled by the real circuits.Compiler and its output is proved equal to the exact function mod 2^wz for ALL operand values by z3 (per-output-bit incremental miter); the width/configuration quantifier is an enumerated, stated family. Counterexamples are replayed through the real Circuit.Compute.",
     ref="DESIGN.md C07", engine="circtv", script="python3-vt",
